@@ -1474,12 +1474,55 @@ fn mp_cause(data: &Path, incumbent: bool, slow: bool) -> &'static str {
     }
 }
 
+/// hook-hit trace written by the real processes of a store (RIP_VERIF_TRACE): "<pid> <unix micros> <point>" lines
+fn mp_trace_path(data: &Path) -> PathBuf {
+    data.parent().unwrap_or(data).join("auth-trace.log")
+}
+
+/// Evidence-based attribution of "two authorities" in a multi-process round whose leftover files name no cause:
+/// which cleanup step did some process really take, and was another process between creating and writing its lock?
+fn mp_cause_from_trace(data: &Path, fallback: &'static str) -> &'static str {
+    let text = std::fs::read_to_string(mp_trace_path(data)).unwrap_or_default();
+    let mut ev: Vec<(u32, u128, String)> = Vec::new();
+    for l in text.lines() {
+        let mut it = l.split(' ');
+        if let (Some(p), Some(t), Some(n)) = (it.next(), it.next(), it.next()) {
+            if let (Ok(p), Ok(t)) = (p.parse::<u32>(), t.parse::<u128>()) {
+                ev.push((p, t, n.to_string()));
+            }
+        }
+    }
+    let corrupt: Vec<(u32, u128)> = ev.iter().filter(|e| e.2 == "auth.corrupt.renamed").map(|e| (e.0, e.1)).collect();
+    let stale: Vec<(u32, u128)> = ev.iter().filter(|e| e.2 == "auth.stale.renamed").map(|e| (e.0, e.1)).collect();
+    for (p, t) in &corrupt {
+        // another process had created its lock before t and had not written the record by then?
+        let pids: std::collections::BTreeSet<u32> = ev.iter().map(|e| e.0).filter(|q| q != p).collect();
+        for q in pids {
+            let created = ev.iter().filter(|e| e.0 == q && e.2 == "auth.created" && e.1 < *t).map(|e| e.1).max();
+            if let Some(c) = created {
+                let written = ev.iter().filter(|e| e.0 == q && e.2 == "auth.written" && e.1 >= c).map(|e| e.1).min();
+                if written.map(|w| w > *t).unwrap_or(true) {
+                    return "corrupt_grace_elapsed_on_live_slow_acquirer";
+                }
+            }
+        }
+    }
+    if !corrupt.is_empty() {
+        return "corrupt_cleanup_renames_fresh_lock";
+    }
+    if !stale.is_empty() {
+        return "stale_cleanup_renames_fresh_lock";
+    }
+    fallback
+}
+
 fn serve_cmd(bin: &Path, data: &Path, ws: &Path, delay: &str) -> Command {
     let mut c = Command::new(bin);
     c.arg("serve")
         .env("RIP_SERVER_ADDR", "127.0.0.1:0")
         .env("RIP_DATA_DIR", data)
         .env("RIP_WORKSPACE_ROOT", ws)
+        .env("RIP_VERIF_TRACE", mp_trace_path(data))
         .env_remove("RIP_VERIF_ABORT")
         .current_dir(ws);
     if delay.is_empty() {
@@ -1495,6 +1538,7 @@ fn client_cmd(bin: &Path, data: &Path, ws: &Path, delay: &str) -> Command {
     c.args(["tasks", "list"])
         .env("RIP_DATA_DIR", data)
         .env("RIP_WORKSPACE_ROOT", ws)
+        .env("RIP_VERIF_TRACE", mp_trace_path(data))
         .env_remove("RIP_VERIF_ABORT")
         .current_dir(ws)
         .process_group(0);
@@ -1933,6 +1977,7 @@ fn mp_case(r: &mut Report, cfg: &Cfg, idx: u64, rng: &mut Rng, bin: &Path) {
         let n_cli = if rng.chance(1, 3) { 1 + rng.usize(3) } else { 0 };
         let slow_first = left == MpLeft::Nothing && rng.chance(1, 6);
         let cause_at_start = mp_cause(&store.data, incumbent.is_some(), slow_first);
+        let _ = std::fs::remove_file(mp_trace_path(&store.data));
         let res = mp_round(bin, &store.data, &store.ws, n_serve, n_cli, slow_first, rng, &mut procs, &mut groups, &mut known);
         r.eval();
         r.count("mp_rounds", 1);
@@ -1961,7 +2006,9 @@ fn mp_case(r: &mut Report, cfg: &Cfg, idx: u64, rng: &mut Rng, bin: &Path) {
             r.inconclusive(&format!("case {idx} round {round}: processes neither exited nor announced themselves within the watchdog"));
             break;
         }
-        let cause = cause_at_start;
+        // no cause readable from the leftover files: let the processes' own hook trace of this round decide (a
+        // cleanup rename that really happened names the known race; no cleanup step at all stays unattributed)
+        let cause = if cause_at_start.starts_with("unattributed") { mp_cause_from_trace(&store.data, cause_at_start) } else { cause_at_start };
         let expected_single: Option<&(String, u32)> = incumbent.as_ref();
         let mut stop = false;
         if res.serving.len() >= 2 || res.max_listening_alive >= 2 {
